@@ -211,6 +211,7 @@ def run(ctx):
         if ctx.mine(i):
             check_decoder(res, ctx, rng, name)
     stream.run_stream(res, 'c09', STREAM_CASES, rng, 'call renderings')
+    stream.run_files(res, 'c09', STREAM_CASES, rng, 'call renderings')
     if ctx.shard == 0:
         s, _ = sentinel_start(core.Ctx('C09', ctx.tier, ctx.seed).rng, 'BSC_pread')
         res.sample({'decoder': 'BSC_pread', 'start_words': [hex(w) for w in s],
@@ -224,6 +225,7 @@ def run(ctx):
     res.require('single_word_replacements', 100)
     res.require('decoders_checked', 20)
     res.require('stream_windows_one_thread', 20)
+    res.require('file_windows_v3', 20)
     return res
 
 
